@@ -222,6 +222,14 @@ def apply_sop(s, op):
     raise ValueError(op)
 
 
+def absent_shape(g):
+    """shape of the image of a colour that has no photon data (must be zeros of the same shape as the others)"""
+    g = np.asarray(g)
+    if g.ndim != 2:
+        return "ndim" + str(g.ndim)
+    return f"{g.shape[0]}x{g.shape[1]}" + ("" if not np.any(g) else "-nonzero")
+
+
 def show_kymo(k):
     if not k:
         return "empty"
@@ -240,7 +248,7 @@ def show_kymo(k):
     return (
         f"view img=[{rows}] ranges={rs} px={enc_rat(float(k.pixelsize[0]))} unit={unit} "
         f"pxum={'N' if pxum is None else enc_rat(float(pxum))} linetime={enc_rat(float(k.line_time_seconds))} "
-        f"ppl={int(k.pixels_per_line)} offset={enc_rat(float(k._position_offset))}"
+        f"ppl={int(k.pixels_per_line)} offset={enc_rat(float(k._position_offset))} absent={absent_shape(k.get_image('green'))}"
     )
 
 
@@ -257,7 +265,9 @@ def show_scan(s):
         return f"num_frames-mismatch {nf} {len(frames)}"
     ftxt = "|".join("[" + ";".join(",".join(str(int(v)) for v in row) for row in f) + "]" for f in frames)
     rs = "[" + ",".join(f"{int(a)}:{int(b)}" for a, b in s.frame_timestamp_ranges()) + "]"
-    return f"view frames={ftxt} ranges={rs}"
+    g = np.asarray(s.get_image("green"))
+    gf = [g] if g.ndim == 2 else list(g)
+    return f"view frames={ftxt} ranges={rs} absent={'|'.join(absent_shape(x) for x in gf)}"
 
 
 def impl(case):
